@@ -69,67 +69,8 @@ def build_naming(g):
     return hw, ['w_' + xn, 'w_' + yn]
 
 
-_TW = {}
-
-
-def twin_pairs(tier):
-    """pairs of catalogue configs whose DUT is emitted under the same (shared) module name"""
-    if tier in _TW:
-        return _TW[tier]
-    groups = {}
-    for s, c in catalog.configs('quick'):
-        try:
-            with core.quiet():
-                d = catalog.build(s, c, 'top')
-            dut = d.sys.children.get('dut')
-            if dut is None or not hasattr(dut, 'structureName'):
-                continue
-            nm = dut.structureName()
-        except Exception:
-            py4hw.Wire.prepared = []
-            continue
-        groups.setdefault(nm, []).append((s, c))
-    pairs = []
-    for nm, lst in sorted(groups.items()):
-        first = lst[0]
-        for other in lst[1:4]:
-            pairs.append((nm, first, other))
-    _TW[tier] = pairs
-    return pairs
-
-
-class _Prefixed(Logic):
-    def __init__(self, real, name):
-        super().__init__(real, name)
-        self.real = real
-        self.pfx = name + '_'
-
-    def wire(self, name, width=1):
-        return self.real.wire(self.pfx + name, width)
-
-    def getSimulator(self):
-        return self.real.getSimulator()
-
-
-def build_twin(a, b):
-    real = py4hw.HWSystem()
-    ins, outs = [], []
-    orig = py4hw.HWSystem
-    for tag, (s, c) in (('u0', a), ('u1', b)):
-        proxy = _Prefixed(real, tag)
-        py4hw.HWSystem = lambda *aa, **kk: proxy
-        try:
-            r = catalog.builder(s, c)()
-        finally:
-            py4hw.HWSystem = orig
-        d = catalog._norm(r, real)
-        for n, w in d.ins:
-            proxy.addIn(n, w)
-        for n, w in d.outs:
-            proxy.addOut(n, w)
-        ins += d.ins
-        outs += d.outs
-    return real, ins, outs
+twin_pairs = catalog.twin_pairs
+build_twin = catalog.build_twin
 
 
 def items(tier):
